@@ -122,9 +122,11 @@ def ledger_and_determinism(ctx, n, budget):
             if rng.random() < ctx.pick(0.25, 0.5):
                 chm, score, ret = case.gf.propose(key, ra)
                 ex = obs.valid_assignment(obs.extract(node, chm))
-                ex0 = obs.valid_assignment(obs.extract(node, tr.get_choices()))
+                # against the untapped simulate, to float tolerance: propose runs the same sampling
+                # code under the same key, but nothing promises the two graphs fuse identically
+                ex0 = obs.valid_assignment(obs.extract(node, tr2.get_choices()))
                 ctx.count("determinism_checks")
-                if set(ex) != set(ex0) or any(not np.array_equal(np.asarray(ex[p]), np.asarray(ex0[p])) for p in ex):
+                if set(ex) != set(ex0) or any(not np.allclose(np.asarray(ex[p], dtype=np.float64), np.asarray(ex0[p], dtype=np.float64), rtol=1e-5, atol=1e-6, equal_nan=True) for p in ex):
                     ctx.violation(f"C04|op=propose|on={node.kind}|field=nondeterministic|cond=propose-vs-simulate", case=case.cid, detail="propose(key,args) choices differ from simulate(key,args)", program=case.src)
             if rng.random() < ctx.pick(0.15, 0.4):
                 f = jax.jit(case.gf.simulate)
